@@ -367,6 +367,24 @@ def extra_checks(rng, tier, g, info):
     """long-lived wallet object: the chain nodes a report runs through are used heavily first (S distinct children
     derived under each external-chain node, S above every small literal of the source, common.soak_size), then
     reports for early / middle / late intervals are produced on the SAME wallet object and recomputed independently"""
+    # LONG intervals whose length is a power of two / a size literal of the source (a page or batch size in the code is
+    # met exactly): one row per index, in order
+    import check as _check
+    lens_ = sorted(set([1024] + [v for v in _check.source_literals(PID) + _check.source_literals("C01") if 256 <= v <= 2048]))
+    lens_ = lens_ if tier == "thorough" else [v for v in lens_ if v in (256, 512, 1024, 2048)][:2] or [1024]
+    for L_ in lens_:
+        w_ = impl.make_wallet("seedb:%s:%s" % (hx(bytes(range(32))), rng.choice("01")))
+        a_ = rng.choice([0, 7])
+        rep_ = w_.generate(account=0, interval=(a_, a_ + L_))
+        for pu in ("BIP44", "BIP49", "BIP84"):
+            rows = rep_[pu]["groups"]
+            idxs = [r[0].rsplit("/", 1)[1] for r in rows]
+            if idxs != [str(i_) for i_ in range(a_, a_ + L_)]:
+                yield ("generate seedb:%s:%s 0 %d %d" % (hx(bytes(range(32))), "1" if w_.testnet else "0", a_, a_ + L_),
+                       "%s lists %d rows for the %d indexes of the interval (not exactly one per index, in order)" % (
+                           pu, len(rows), L_))
+                return
+    info["long_interval_lengths"] = lens_
     S = common.soak_size(PID, tier)
     sd = bytes(rng.getrandbits(8) for _ in range(32))
     t = rng.choice("01")
@@ -419,9 +437,14 @@ def literal_ops(lit):
     w = "seedb:%s:%s" % (hx(bytes(range(16, 48))), "01"[lit % 2])
     if lit < 2 ** 31:
         yield "generate %s %d %d %d" % (w, lit, lit, lit + 1)
+    if 2 <= lit <= 4096:
+        # ... and interval LENGTHS equal to the literal (and to twice it): a page / batch size in the code is met exactly
+        yield "generate %s 0 %d %d" % (w, 7, 7 + lit)
+        if lit <= 1024:
+            yield "generate %s 1 0 %d" % (w, 2 * lit)
 
 
-LITERAL_BUDGET = 24
+LITERAL_BUDGET = 40
 
 
 def _hex_text_wallets(rng, tier):
